@@ -4,8 +4,9 @@ import Mathlib.Algebra.MvPolynomial.Basic
 import Mathlib.Tactic.Ring
 import Np.Proofs.DivTerm
 import Np.Proofs.DivArr
+import Np.Proofs.DivExact
 /-! C05 — polynomial division: the division identity is an invariant of every reduction step, the loop stops only
-when no term of the remainder is reducible, zero and constant divisors; termination `_partial` (see DESIGN.md) -/
+when no term of the remainder is reducible, zero and constant divisors, termination, exact multiples, degrees -/
 namespace Np.Props.C05
 open MvPolynomial Np.Div
 
@@ -114,6 +115,57 @@ theorem divmod_total (ns : List Name) (f d : List (Expo × K))
     ∃ fuel q r, divmod fuel f d = some (q, r) ∧ denT ns f = denT ns q * denT ns d + denT ns r := by
   obtain ⟨fuel, q, r, h⟩ := Div.divmod_terminates ns.length f d hf hd hfn hdn
   exact ⟨fuel, q, r, h, Div.divmod_identity ns fuel f d q r hfn hf hd h⟩
+/-- **constant divisor**: where the divisor element is a non-zero constant `c` (its leading row is the zero row), the
+remainder is zero and the quotient is the true quotient `f / c` -/
+theorem constant_divisor (ns : List Name) (fuel : Nat) (f d q r : List (Expo × K)) (lead : Expo × K)
+    (hf : (f.map (·.1)).Nodup) (hfl : ∀ t ∈ f, t.1.length = ns.length) (hdl : ∀ t ∈ d, t.1.length = ns.length)
+    (hdn : (d.map (·.1)).Nodup)
+    (hlead : maxTerm (fun t => !(t.2 == 0)) d = some lead) (hl0 : lead.1 = List.replicate ns.length 0)
+    (h : divmod fuel f d = some (q, r)) :
+    denT ns d = C lead.2 ∧ r = [] ∧ denT ns r = 0 ∧ denT ns q = C (lead.2)⁻¹ * denT ns f := by
+  obtain ⟨h1, h2, h3⟩ := Div.divmod_const_divisor' ns fuel f d q r lead hf hfl hdl hdn hlead hl0 h
+  exact ⟨h1, Div.divmod_const_remainder_nil fuel ns.length f d q r lead hlead hl0 h, h2, h3⟩
+
+/-- **exact multiples**: where the dividend is a polynomial multiple `g · divisor` of a non-zero divisor — any number
+of indeterminates, `g` any polynomial — the remainder is zero (the empty term list) and the quotient is the cofactor
+`g`, term by term. (The lexsort order is compatible with adding exponent rows, so the largest monomial of
+`(g − q)·d` would be divisible by the divisor's leading monomial, which a reduced remainder excludes.) -/
+theorem exact_multiple (ns : List Name) (hn : ns.Nodup) (fuel : Nat) (f d q r : List (Expo × K))
+    (g : MvPolynomial Name K)
+    (hf : (f.map (·.1)).Nodup) (hfl : ∀ t ∈ f, t.1.length = ns.length)
+    (hdn : (d.map (·.1)).Nodup) (hdl : ∀ t ∈ d, t.1.length = ns.length)
+    (h : divmod fuel f d = some (q, r)) (hg : denT ns f = g * denT ns d) (hd0 : denT ns d ≠ 0) :
+    denT ns r = 0 ∧ denT ns q = g ∧ r = [] ∧ ∀ t ∈ q, coeff (fsN ns t.1) g = t.2 ∧ t.2 ≠ 0 := by
+  obtain ⟨h1, h2⟩ := Div.divmod_exact ns hn fuel f d q r g hf hfl hdn hdl h hg hd0
+  obtain ⟨h3, h4⟩ := Div.divmod_exact_terms ns hn fuel f d q r g hf hfl hdn hdl h hg hd0
+  exact ⟨h1, h2, h3, h4⟩
+
+/-- quotient and remainder are unique: any decomposition `f = g·d + s` with `s` reduced w.r.t. the divisor's leading
+monomial is the one the division returns -/
+theorem quotient_unique (ns : List Name) (hn : ns.Nodup) (fuel : Nat) (f d q r s : List (Expo × K))
+    (g : MvPolynomial Name K) (lead : Expo × K)
+    (hf : (f.map (·.1)).Nodup) (hfl : ∀ t ∈ f, t.1.length = ns.length)
+    (hdn : (d.map (·.1)).Nodup) (hdl : ∀ t ∈ d, t.1.length = ns.length)
+    (hlead : maxTerm (fun t => !(t.2 == 0)) d = some lead)
+    (h : divmod fuel f d = some (q, r))
+    (hsl : ∀ t ∈ s, t.1.length = ns.length)
+    (hsred : ∀ t ∈ s, t.2 ≠ 0 → divides lead.1 t.1 = false)
+    (hg : denT ns f = g * denT ns d + denT ns s) :
+    denT ns q = g ∧ denT ns r = denT ns s :=
+  Div.divmod_unique ns hn fuel f d q r s g lead hf hfl hdn hdl hlead h hsl hsred hg
+
+/-- **one indeterminate**: the remainder has lower degree than the divisor — every monomial of `r` has exponent
+`< l` where `l` is the divisor's degree (its leading exponent; every monomial of `d` has exponent `≤ l`) -/
+theorem univariate_degree (x : Name) (fuel : Nat) (f d q r : List (Expo × K)) (t0 : Expo × K)
+    (hf : (f.map (·.1)).Nodup) (hfl : ∀ t ∈ f, t.1.length = 1) (hdl : ∀ t ∈ d, t.1.length = 1)
+    (ht0 : t0 ∈ d) (hnz : t0.2 ≠ 0) (h : divmod fuel f d = some (q, r)) :
+    ∃ (lead : Expo × K) (l : Nat), maxTerm (fun t => !(t.2 == 0)) d = some lead ∧ lead.2 ≠ 0 ∧ lead.1 = [l] ∧
+      (∀ m, coeff m (denT [x] d) ≠ 0 → m x ≤ l) ∧ ∀ m, coeff m (denT [x] r) ≠ 0 → m x < l :=
+  Div.divmod_univariate_den x fuel f d q r t0 hf hfl hdl ht0 hnz h
+
+/-- no zero coefficient is ever stored in quotient or remainder -/
+theorem no_zero_terms (fuel : Nat) (f d q r : List (Expo × K)) (h : divmod fuel f d = some (q, r)) :
+    (∀ t ∈ q, t.2 ≠ 0) ∧ ∀ t ∈ r, t.2 ≠ 0 := Div.divmod_nz fuel f d q r h
 end refinement
 
 /-! ### on arrays: `poly_divmod(a, b)` divides element by element after broadcasting (Np/Model/DivArr.lean is what the
